@@ -49,6 +49,9 @@ static char stall_match[256];   /* FSFAULT_WRITE_STALL=<substring of class>:<k>:
 static long stall_k = -1;        /* contains the substring takes <ms> longer (a stalled disk), once */
 static long stall_ms = 0;
 static long stall_seen = 0;
+static char fail_match[256];    /* FSFAULT_WRITE_FAIL=<substring of class>:<k>: from the k-th write whose class contains */
+static long fail_k = -1;         /* the substring on, every such write fails with ENOSPC (a disk that has filled up) */
+static long fail_seen = 0;
 static long unlink_delay_us = 0; /* FSFAULT_UNLINK_DELAY_US: a slow disk for unlink/rmdir under the root */
 
 static char *fd_rel[MAXFD]; /* relpath of tracked writable fds */
@@ -132,6 +135,18 @@ __attribute__((constructor)) static void init(void) {
                 stall_k = atol(k);
                 stall_ms = atol(m);
             }
+        }
+    }
+    const char *wf = getenv("FSFAULT_WRITE_FAIL");
+    if (wf && *wf) {
+        char tmp[512];
+        strncpy(tmp, wf, sizeof(tmp) - 1);
+        tmp[sizeof(tmp) - 1] = 0;
+        char *k = strrchr(tmp, ':');
+        if (k) {
+            *k++ = 0;
+            strncpy(fail_match, tmp, sizeof(fail_match) - 1);
+            fail_k = atol(k);
         }
     }
     const char *ud = getenv("FSFAULT_UNLINK_DELAY_US");
@@ -240,6 +255,7 @@ static int effect(const char *op, const char *rel, size_t bytes) {
     if (crash_mode && k == crash_k && !strcmp(cls, crash_class)) act = crash_mode;
     long stall = 0;
     if (stall_k > 0 && !strcmp(op, "write") && strstr(cls, stall_match) && ++stall_seen == stall_k) stall = stall_ms;
+    if (!act && fail_k > 0 && !strcmp(op, "write") && strstr(cls, fail_match) && ++fail_seen >= fail_k) act = 4;
     pthread_mutex_unlock(&mu);
     if (stall > 0) usleep((useconds_t)(stall * 1000));
     if (act == 1) die();
@@ -315,6 +331,10 @@ ssize_t write(int fd, const void *buf, size_t n) {
     char rel[4096];
     if (active && n > 0 && tracked(fd, rel, sizeof(rel))) {
         int act = effect("write", rel, n);
+        if (act == 4) {
+            errno = ENOSPC;
+            return -1;
+        }
         if (act == 3) {
             real_write(fd, buf, n / 2);
             die();
@@ -332,6 +352,10 @@ ssize_t writev(int fd, const struct iovec *iov, int cnt) {
         size_t tot = 0;
         for (int i = 0; i < cnt; i++) tot += iov[i].iov_len;
         int act = effect("write", rel, tot);
+        if (act == 4) {
+            errno = ENOSPC;
+            return -1;
+        }
         if (act == 3) {
             if (cnt > 0) real_write(fd, iov[0].iov_base, iov[0].iov_len / 2);
             die();
@@ -347,6 +371,10 @@ ssize_t pwrite64(int fd, const void *buf, size_t n, off_t off) {
     char rel[4096];
     if (active && n > 0 && tracked(fd, rel, sizeof(rel))) {
         int act = effect("write", rel, n);
+        if (act == 4) {
+            errno = ENOSPC;
+            return -1;
+        }
         if (act == 3) {
             real_pwrite64(fd, buf, n / 2, off);
             die();
